@@ -506,8 +506,31 @@ func (fr *FuncRun) invariantsOf(f *Frame, head *ssa.BasicBlock) []*Clause {
 	return f.contract.Loops[fr.loopOrdinal(f, head)]
 }
 
-func (fr *FuncRun) frameCtx(f *Frame, st *State) *EvalCtx {
+// currentParamBinds: inside the body (loop invariants, call-site clauses) a parameter name denotes the
+// current value of the parameter variable, which the body may have reassigned; `argN` keep the entry values.
+func (fr *FuncRun) currentParamBinds(f *Frame, st *State) map[string]TVal {
 	binds := fr.paramBinds(f.fn, f.params)
+	for _, p := range f.fn.Params {
+		for _, ins := range f.fn.Blocks[0].Instrs {
+			a, ok := ins.(*ssa.Alloc)
+			if !ok || a.Comment != p.Name() {
+				continue
+			}
+			if isStaticCell(a) {
+				if v, ok := st.cells[cellKey{f.id, a}]; ok {
+					binds[p.Name()] = TVal{Val: v, Type: p.Type()}
+				}
+			} else if r, ok := f.regs[a]; ok {
+				binds[p.Name()] = TVal{Val: fr.load(st, ObjAddr{Ref: r.T, Elem: p.Type(), NonNil: true}, p.Type()), Type: p.Type()}
+			}
+			break
+		}
+	}
+	return binds
+}
+
+func (fr *FuncRun) frameCtx(f *Frame, st *State) *EvalCtx {
+	binds := fr.currentParamBinds(f, st)
 	return &EvalCtx{fr: fr, f: f, st: st, old: f.entry, pkg: fr.eng.pkgOf(f.fn), binds: binds}
 }
 
@@ -569,11 +592,9 @@ func (fr *FuncRun) atCallAsserts(f *Frame, st *State, c *ssa.CallCommon, name st
 		}
 		binds := fr.callBinds(f, c, fnVal, args)
 		// names of the contract frame's own params stay bound through inlining
-		for n, v := range fr.paramBinds(top.fn, top.params) {
-			if _, ok := binds[n]; !ok || !strings.HasPrefix(n, "arg") {
-				if !strings.HasPrefix(n, "arg") {
-					binds[n] = v
-				}
+		for n, v := range fr.currentParamBinds(top, st) {
+			if !strings.HasPrefix(n, "arg") {
+				binds[n] = v
 			}
 		}
 		ctx := &EvalCtx{fr: fr, f: top, st: st, old: top.entry, pkg: fr.eng.pkgOf(top.fn), binds: binds}
@@ -597,7 +618,7 @@ func (fr *FuncRun) ghostUpdates(f *Frame, st *State, c *ssa.CallCommon, name str
 			continue
 		}
 		binds := fr.callBinds(f, c, fnVal, args)
-		for n, v := range fr.paramBinds(top.fn, top.params) {
+		for n, v := range fr.currentParamBinds(top, st) {
 			if !strings.HasPrefix(n, "arg") {
 				binds[n] = v
 			}
@@ -618,6 +639,58 @@ func (fr *FuncRun) ghostUpdates(f *Frame, st *State, c *ssa.CallCommon, name str
 			fr.errorf("contract %s:%d: %s", shortFile(ac.Clause.File), ac.Clause.Line, e)
 		}
 		// nested store
+		var build func(arr string, i int) string
+		build = func(arr string, i int) string {
+			if i == len(idx) {
+				return val.T
+			}
+			return sto(arr, idx[i], build(sel(arr, idx[i]), i+1))
+		}
+		st.cells[key] = Val{T: fr.defAlways(cur.S, build(cur.T, 0), "ghost_"+ac.Ghost.Name), S: cur.S}
+		fr.noteCellWrite(key)
+	}
+}
+
+// recvGhost executes ghost updates and assertions bound to the receipt of a message on a channel
+// (`at recv ch: ghost g[..] = e` / `at recv ch: assert e`, the message is bound to msg).
+func (fr *FuncRun) recvGhost(f *Frame, st *State, chv ssa.Value, msg Val, pos token.Pos) {
+	top := fr.contractFrame(f)
+	if top == nil {
+		return
+	}
+	name := "recv:" + exprText(chv)
+	et := chv.Type().Underlying().(*types.Chan).Elem()
+	k := 0
+	for _, ac := range top.contract.AtCalls {
+		if ac.Callee != name || ac.Assume {
+			continue
+		}
+		binds := fr.paramBinds(top.fn, top.params)
+		binds["msg"] = TVal{Val: msg, Type: et}
+		ctx := &EvalCtx{fr: fr, f: top, st: st, old: top.entry, pkg: fr.eng.pkgOf(top.fn), binds: binds}
+		if ac.Ghost == nil {
+			k++
+			if fr.scout == 0 {
+				t := fr.evalClause(ctx, ac.Clause)
+				fr.assertOb(st, "callsite", fmt.Sprintf("%s:%d", name, k), t, pos, "assertion at receive on "+name+": "+ac.Clause.Text)
+				fr.callsiteSeen[fmt.Sprintf("%s:%d", name, k)] = true
+			}
+			continue
+		}
+		key := cellKey{0, "ghost:" + ac.Ghost.Name}
+		cur, ok := st.cells[key]
+		if !ok {
+			fr.errorf("contract %s:%d: unknown ghost %q", shortFile(ac.Clause.File), ac.Clause.Line, ac.Ghost.Name)
+			continue
+		}
+		var idx []string
+		for _, ie := range ac.Ghost.Index {
+			idx = append(idx, ctx.eval(ie).T)
+		}
+		val := ctx.eval(ac.Ghost.Value)
+		for _, e := range ctx.errs {
+			fr.errorf("contract %s:%d: %s", shortFile(ac.Clause.File), ac.Clause.Line, e)
+		}
 		var build func(arr string, i int) string
 		build = func(arr string, i int) string {
 			if i == len(idx) {
@@ -680,7 +753,7 @@ func (fr *FuncRun) atCallAssumes(f *Frame, st *State, c *ssa.CallCommon, name st
 			continue
 		}
 		binds := fr.callBinds(f, c, fnVal, args)
-		for n, v := range fr.paramBinds(top.fn, top.params) {
+		for n, v := range fr.currentParamBinds(top, st) {
 			if !strings.HasPrefix(n, "arg") {
 				binds[n] = v
 			}
@@ -822,7 +895,7 @@ func (e *Engine) VerifyFunction(fn *ssa.Function) *FuncResult {
 	for _, fv := range fn.FreeVars {
 		if !isStaticFreeVar(fv) {
 			v := Val{T: fr.fresh(sInt, "fv_"+fv.Name()), S: sInt}
-			fr.emit(fmt.Sprintf("(assert (and (> %s 0) (<= %s AllocBase)))", v.T, v.T))
+			fr.emit(fmt.Sprintf("(assert (and (not (= %s 0)) (<= (fa_root %s) AllocBase)))", v.T, v.T))
 			f.regs[fv] = v
 		}
 	}
@@ -989,8 +1062,8 @@ func (fr *FuncRun) assertObNoAssume(st *State, kind, base, cond string, pos toke
 func (fr *FuncRun) refBound(v Val, t types.Type) {
 	switch t.Underlying().(type) {
 	case *types.Pointer, *types.Map, *types.Chan:
-		fr.emit(fmt.Sprintf("(assert (<= %s AllocBase))", v.T))
+		fr.emit(fmt.Sprintf("(assert (<= (fa_root %s) AllocBase))", v.T))
 	case *types.Slice:
-		fr.emit(fmt.Sprintf("(assert (<= (s-arr %s) AllocBase))", v.T))
+		fr.emit(fmt.Sprintf("(assert (<= (fa_root (s-arr %s)) AllocBase))", v.T))
 	}
 }
